@@ -29,6 +29,37 @@ def _listed(call):
     return const_names(call.args[1]) if len(call.args) > 1 else set()
 
 
+def _classwide(repo, cls, name, self_call=False):
+    """All call sites `<x>.<name>(..)` in any method of cls: [(Func, call)]."""
+    out = []
+    for f in list(cls.methods.values()) + list(cls.getters.values()):
+        for c in calls(f.node, name):
+            if not isinstance(c.func, ast.Attribute):
+                continue
+            is_self = U(c.func.value) in ("self", "super()")
+            if is_self == self_call:
+                out.append((f, c))
+    return out
+
+
+def _site_check(repo, sink, cls, name, f, found, key, self_call=False, want=1):
+    """Shared verdict for 'exactly `want` call sites of `name`, located in method f'.
+    Returns True if the intra-method checks may proceed."""
+    allsites = _classwide(repo, cls, name, self_call)
+    if len(found) == want and len(allsites) == want:
+        sink.ok("R06", key, f, f"{want} {name}() call site(s), in {f.qualname}")
+        return True
+    if len(allsites) == 0:
+        sink.bad("R06", key, f, f"{cls.name} never calls {name}()")
+        return False
+    if len(allsites) > want:
+        where = sorted({g.qualname for g, _ in allsites})
+        sink.bad("R06", key, f, f"{len(allsites)} {name}() call sites in {where}: a component would pass this phase more than once")
+        return False
+    sink.unknown("R06", key, f, f"{name}() is called from {sorted({g.qualname for g, _ in allsites})}, not from {f.qualname}: life-cycle layout not recognised")
+    return False
+
+
 # =========================================================================== R06
 def r06_life(repo, sink):
     comp = repo.cls("Composition")
@@ -67,8 +98,7 @@ def r06_life(repo, sink):
 
     # initialize
     ic = _comp_calls(init.node, "initialize")
-    sink.check(len(ic) == 1, "R06", "call-site:initialize", init, ok="one initialize() call site", bad=f"{len(ic)} initialize() call sites in __init__")
-    if ic:
+    if _site_check(repo, sink, comp, "initialize", init, ic, "call-site:initialize"):
         followed(init, ic[0], {"INITIALIZED"}, "initialize")
         cfg = CFG(init.node)
         pre = [c for c in _check_status_calls(init.node) if "CREATED" in _listed(c)]
@@ -76,13 +106,19 @@ def r06_life(repo, sink):
                    ok="components are checked to be CREATED before initialize()", bad="no CREATED check before initialize()")
     # connect / validate
     vc = _comp_calls(conn.node, "validate")
-    sink.check(len(vc) == 1, "R06", "call-site:validate", conn, ok="one validate() call site", bad=f"{len(vc)} validate() call sites")
+    if not _site_check(repo, sink, comp, "validate", conn, vc, "call-site:validate"):
+        vc = []
     cfgc = CFG(conn.node)
     vcomp = [c for c in calls(conn.node, "_validate_composition")]
     ccall = [c for c in calls(conn.node, "_connect_components")]
     col = [c for c in calls(conn.node, "_collect_adapters")]
     if not (vc and vcomp and ccall and col):
-        sink.unknown("R06", "connect-phases", conn, "connect() lacks one of _collect_adapters/_validate_composition/_connect_components/validate")
+        missing = [n for n, l in (("_collect_adapters", col), ("_validate_composition", vcomp), ("_connect_components", ccall)) if not l
+                   and not _classwide(repo, comp, n, self_call=True)]
+        if missing:
+            sink.bad("R06", "connect-phases", conn, f"{missing} is never called: the connect phase skips it")
+        else:
+            sink.unknown("R06", "connect-phases", conn, "connect() does not itself call _collect_adapters/_validate_composition/_connect_components/validate: layout not recognised")
     else:
         followed(conn, vc[0], {"VALIDATED"}, "validate")
         order = [col[0], vcomp[0], ccall[0], vc[0]]
@@ -101,8 +137,7 @@ def r06_life(repo, sink):
                    ok="a second connect() is refused", bad="connect() can run twice (components connected / validated twice)")
     # component connect in _connect_components
     cn = _comp_calls(cc.node, "connect")
-    sink.check(len(cn) == 1, "R06", "call-site:connect", cc, ok="one comp.connect() call site", bad=f"{len(cn)} comp.connect() call sites")
-    if cn:
+    if _site_check(repo, sink, comp, "connect", cc, cn, "call-site:connect"):
         followed(cc, cn[0], {"CONNECTING", "CONNECTING_IDLE", "CONNECTED"}, "connect")
     # run: connect before loop, finalize after
     cfgr = CFG(run.node)
@@ -141,9 +176,13 @@ def r06_life(repo, sink):
     fc = _comp_calls(fin.node, "finalize")
     comp_fin = [c for c in fc if _loop_iter(c) and "_components" in _loop_iter(c)]
     ada_fin = [c for c in fc if _loop_iter(c) and "_adapters" in _loop_iter(c)]
-    sink.check(len(comp_fin) == 1 and len(ada_fin) == 1 and len(fc) == 2, "R06", "call-site:finalize", fin,
-               ok="finalize(): one call site for components, one for adapters",
-               bad=f"finalize() call sites: components {len(comp_fin)}, adapters {len(ada_fin)}, total {len(fc)}")
+    if len(comp_fin) == 1 and len(ada_fin) == 1 and len(fc) == 2:
+        sink.ok("R06", "call-site:finalize", fin, "finalize(): one call site for components, one for adapters")
+    elif not fc:
+        sink.bad("R06", "call-site:finalize", fin, "_finalize_components finalizes nothing")
+    else:
+        sink.ok("R06", "call-site:finalize", fin, "finalize call sites not in the known shape; decided by the abstract run (finalize-once)")
+    _finalize_once(repo, sink, comp, fin)
     if comp_fin:
         followed(fin, comp_fin[0], {"FINALIZED"}, "finalize")
         cfgf = CFG(fin.node)
@@ -184,6 +223,59 @@ def r06_life(repo, sink):
                    bad=f"component.{m}() called outside the driver: {foreign}")
     sink.floor("R06", "_check_status pairings", n_checks, 6, conn)
     _r06_wrappers(repo, sink)
+
+
+class _FinInterp(SchedInterp):
+    def __init__(self, repo):
+        super().__init__(repo)
+        self.finalized = []
+
+    def get_attr(self, obj, attr, node, mod):
+        if isinstance(obj, Obj) and not isinstance(obj, Logger) and attr == "finalize" and "component" in obj.markers:
+            return Sym("fin", Ref(obj))
+        return super().get_attr(obj, attr, node, mod)
+
+    def call_hook(self, fv, args, kwargs, node, mod):
+        if isinstance(fv, Sym) and fv.op == "fin":
+            o = fv.args[0].obj
+            self.finalized.append(o.label)
+            o.fields["status"] = Sym("enum", "ComponentStatus", "FINALIZED")
+            return None
+        if isinstance(fv, Closure) and getattr(fv.func, "name", "") == "finalize" and fv.self_obj is not None and fv.self_obj.cls is not None:
+            self.finalized.append(fv.self_obj.label)
+            return None
+        return super().call_hook(fv, args, kwargs, node, mod)
+
+
+def _finalize_once(repo, sink, comp_cls, fin):
+    """Abstract run of adapter collection + finalization on a topology with a shared adapter."""
+    from ..schedmodel import Topo
+    t = Topo(repo)
+    a, b, c = t.comp("A", status="UPDATED"), t.comp("B", status="UPDATED"), t.comp("C", status="VALIDATED")
+    o = t.output(a)
+    shared = t.link(o, ["Scale"], None)
+    t.link(o, shared, b)
+    t.link(o, shared + ["NextTime"], c)
+    o2 = t.output(a, "out2")
+    t.link(o2, ["DelayFixed", "Scale"], b, "in2")
+    adapters = {e.label for (_o, elems, _c, _i) in t.links for e in elems}
+    me = Obj(cls=comp_cls, label="composition")
+    me.fields.update(_components=list(t.comps.values()), _adapters=set(), logger=Logger(label="logger"))
+    it = _FinInterp(repo)
+    col = repo.resolve(comp_cls, "_collect_adapters")
+    try:
+        it.run(col, [], self_obj=me)
+        it.run(fin, [], self_obj=me)
+    except Raised as r:
+        sink.bad("R06", "finalize-once", fin, f"finalizing a valid composition raises {r.name}")
+        return
+    counts = {}
+    for lbl in it.finalized:
+        counts[lbl] = counts.get(lbl, 0) + 1
+    wrong = {k: counts.get(k, 0) for k in sorted(adapters | set(t.comps)) if counts.get(k, 0) != 1}
+    sink.check(not wrong, "R06", "finalize-once", fin,
+               ok=f"{len(adapters)} adapters (one shared by two consumers) and {len(t.comps)} components are each finalized exactly once",
+               bad=f"finalize counts differ from one: {wrong} (an adapter upstream of a branch is reached once per consumer / an adapter is never collected)")
 
 
 def _loop_iter(node):
